@@ -32,12 +32,21 @@ def gen(rng, n):
                 lay.tree = [e for e in lay.tree if e[1] != lay.top2(v)]
         where = rng.choice(['home', 'vol', 'vol'])
         root = lay.home if where == 'home' else rng.choice(lay.vols)
+        # a directory on the root volume whose NAME begins with the name of a volume (/vol1x next to /vol1): a link in it to a directory
+        # on that volume, named with a trailing slash (as shell completion writes it), goes to the volume's trash directory although its
+        # parent is not on the volume - the recorded Path stays absolute
+        sibcase = bool(lay.vols) and rng.random() < 0.08
+        if sibcase:
+            sibvol = rng.choice(lay.vols)
+            where, root = 'sib', sibvol + 'x'
         sub = rng.choice(['w', 'w/x', 'w/x/y z']) if rng.random() > 0.06 else 'w/' + '/'.join(['\u6f22' * 80] * rng.choice([6, 7]))
         parent = root + '/' + sub
         name = rng.choice(NAMES)
         full = parent + '/' + name
-        kind = rng.choice(['f', 'e', 'd', 'lf', 'ld', 'lx'])
+        kind = rng.choice(['f', 'e', 'd', 'lf', 'ld', 'lx']) if not sibcase else 'ld_vol'
         nodes = scen.canary() + [['d', parent, 0o755]]
+        if sibcase:
+            nodes += [['d', sibvol + '/realpics', 0o755], ['f', sibvol + '/realpics/p1', 'p1'], ['l', full, sibvol + '/realpics']]
         if kind == 'f':
             nodes.append(['f', full, 'the content', rng.choice([0o644, 0o600, 0o755, 0o444])])
         elif kind == 'e':
@@ -49,6 +58,8 @@ def gen(rng, n):
             nodes.append(['l', full, '/canary/file'])
         elif kind == 'ld':
             nodes.append(['l', full, '/canary/dir'])
+        elif kind == 'ld_vol':
+            pass
         else:
             nodes.append(['l', full, 'no/where'])
         nodes += [['f', parent + '/sibling', 'sib'], ['f', root + '/other1', 'o1'], ['f', lay.home + '/other2', 'o2']]
@@ -71,6 +82,8 @@ def gen(rng, n):
             lay.tree += [['f', lay.j(root, '.Trash'), 'not a directory'], ['f', lay.top2(root), 'not a directory']]
             tdopt = ['--home-fallback']
             putenv = {'TRASH_ENABLE_HOME_FALLBACK': '1'}
+        if sibcase:
+            tdopt, putenv = [], {}
         if not tdopt and rng.random() < 0.15:
             # what a purge killed between its two removals leaves behind: a payload without .trashinfo, of the SAME name, in the
             # directories the entry can go to - the new entry must get another name and come back alone
@@ -82,7 +95,12 @@ def gen(rng, n):
                     nodes += [['f', td + '/files/' + name, 'left over'], ['d', td + '/info', 0o700]]
         sort = rng.choice(['date', 'path', 'none', None])
         scope_kind = rng.choice(['path', 'parent-arg', 'cwd-parent', 'ancestor', 'root'])
-        steps = [{'cmd': 'put', 'argv': tdopt + ['--', full], 'now': [2024, 5, 6, 7, 8, 9, 0], 'env': putenv}]
+        steps = [{'cmd': 'put', 'argv': tdopt + ['--', full + ('/' if sibcase else '')], 'now': [2024, 5, 6, 7, 8, 9, 0], 'env': putenv}]
+        if where == 'vol' and not tdopt and lay.top[root][0] == 'absent' and rng.random() < 0.35:
+            # the entry went to $topdir/.Trash-$uid; afterwards the administrator sets up a proper sticky $topdir/.Trash (and the user's
+            # directory in it appears): entries of BOTH directories of the volume are the user's and are offered
+            steps.append({'cmd': 'fs', 'ops': [['mkdir', root + '/.Trash/%d/info' % lay.uid], ['mkdir', root + '/.Trash/%d/files' % lay.uid],
+                                               ['chmod', root + '/.Trash', 0o1777], ['chmod', root + '/.Trash/%d' % lay.uid, 0o700]]})
         # a history in between
         hist = []
         for _ in range(rng.randint(0, 3)):
